@@ -124,20 +124,20 @@ def run(ctx):
     s = V.harness(ctx, ["fw-cells", "-in", cells, "-out", obs, "-seed", ctx.seed, "-sample", sample, "-reps", reps,
                         "-workers", V.NCPU, "-tier", ctx.tier])
     ctx.say("cells: %d emitted, %d executed (%d distinct), %d forwarded, %.1fs" % (n, s["executed"], s["distinct"], s["forwarded"], time.time() - t))
-    if s["forwarded"] == 0:
+    lines = validate(ctx, obs, "cells")
+    if s["forwarded"] == 0 and not ctx.violations:
         raise V.Machinery("driver could not get any request forwarded (statuses %s)" % s["status"])
     # vacuity: every rule of this property had its antecedent reached on the real code
     hits = s["hits"]
     missing = [r for r in RULES[pid] if hits.get(r, 0) == 0]
-    if missing:
+    if missing and not ctx.violations:
         raise V.Machinery("antecedent never reached on the implementation for %s" % missing)
-    lines = validate(ctx, obs, "cells")
     # burst leg: many signed requests in flight at once through ONE proxy (shared signer, HMAC key, cipher, transport);
     # each is recorded as an ordinary cell and judged by the same rules
     bobs = os.path.join(ctx.scratch, "burst.ndjson")
     bs = V.harness(ctx, ["fw-burst", "-in", cells, "-out", bobs, "-seed", ctx.seed, "-n", 800 if quick else 8000, "-workers", 16,
                          "-base", 5000000])
-    if bs["forwarded"] < bs["executed"] // 2:
+    if bs["forwarded"] < bs["executed"] // 2 and not ctx.violations:
         raise V.Machinery("burst leg: only %d of %d requests were forwarded (statuses %s)" % (bs["forwarded"], bs["executed"], bs["status"]))
     validate(ctx, bobs, "burst")
     ctx.cov["burst_requests_in_flight_together"] = {"requests": bs["executed"], "forwarded": bs["forwarded"], "workers": 16}
